@@ -1,0 +1,10 @@
+//go:build verif
+
+package rtptime
+
+import "time"
+
+// VerifSetTimeNow replaces the package-level clock (runtime verification hook).
+func VerifSetTimeNow(f func() time.Time) {
+	timeNow = f
+}
